@@ -461,10 +461,22 @@ def run_fattree(case):
                 or len(p) - 1 != nx.shortest_path_length(g, fl.src, fl.dst):
             raise Violation("C18.fattree", f"flow {fid}: path {p} is not a shortest path {fl.src}->{fl.dst}", "C18.fattree/flow-path")
     tcp = case["tcp"]
+    # the mapping handed to generate_fib is the caller's: a renumbered batch or a filtered subset has keys that are not the
+    # flows' own ids; packets carry Flow.fid, so the tables are judged under that id
+    rekey = case.get("rekey")
+    if rekey == "shift":
+        flows = {key + 1000: fl for key, fl in flows.items()}
+    elif rekey == "subset":
+        flows = dict(enumerate(fl for fl in flows.values() if fl.fid % 2 == 1 or case["nflows"] == 1))
+    elif rekey == "names":
+        flows = {f"flow-{key}": fl for key, fl in reversed(list(flows.items()))}
+    if rekey:
+        classes.add("mapping keys differ from the flows' ids")
     guarded("C18.fattree", lambda: ft.generate_fib(flows, tcp=tcp), "generate_fib")
     shared = 0
     used = {}
-    for fid, fl in flows.items():
+    for fl in flows.values():
+        fid = fl.fid
         for keyid, path in [(fid, fl.path)] + ([(fid + 10000, fl.path[::-1])] if tcp else []):
             cur = path[0]
             walked = [cur]
@@ -662,7 +674,7 @@ def splitter_strategy(tier):
 def fattree_strategy(tier):
     ks = [2, 4, 4, 6, 8] if tier == "quick" else [2, 4, 6, 8, 10, 12, 16]
     good = st.fixed_dictionaries({"k": st.sampled_from(ks), "nflows": st.integers(1, 12), "seed": st.integers(0, 10 ** 6),
-                                  "tcp": st.booleans()})
+                                  "tcp": st.booleans(), "rekey": st.sampled_from([None, None, None, "shift", "subset", "names"])})
     bad = st.fixed_dictionaries({"k": st.sampled_from([0, 1, 3, 5, -2, -4, 2.0, "4", 7]), "nflows": st.just(1), "seed": st.just(0),
                                  "tcp": st.just(False)})
     return kgen.weighted([(good, 4), (bad, 2)])
@@ -709,7 +721,7 @@ PROP = Property(
         Facet("splitter", splitter_strategy, run_splitter, quick=300, thorough=1500,
               essential=["Splitter", "NSplitter", "unset output", "invalid N refused", "packet marked upstream of the splitter"]),
         Facet("fattree", fattree_strategy, run_fattree, quick=400, thorough=1500,
-              essential=[">=2 flows share a link", "reverse (TCP) entries", "invalid k refused"]),
+              essential=[">=2 flows share a link", "reverse (TCP) entries", "invalid k refused", "mapping keys differ from the flows' ids"]),
         Facet("fattree_e2e", e2e_strategy, run_e2e, quick=300, thorough=1500, essential=[">=2 flows share a link", "tail drops"]),
     ],
     assumptions=["SP inside FairPacketSwitch is configured with per-flow priorities (SP is keyed by flow id)",
